@@ -17,7 +17,7 @@ META = {
                    "matrix product are the specified projections of A_k B_k (E5 canonical networks, generic independent sizes) and every tensor "
                    "statement of its two sweeps types consistently over the independent rank families rx, rz, R_A, R_B, M, K, N (IFACE-TYPE). Does NOT decide the eps accuracy, convergence or seed independence.",
     "assumptions": ["convergence of randomised two-site sweeps and the unspecified 'small constant' are runtime quantities"],
-    "floors": {"ENRICH-WIDTH": 1, "ZERO-NORM": 4, "EMPTY-REDUCE": 2, "DEFASSIGN": 30, "RESULT-SHAPE": 4, "E3-PARAM": 3, "IFACE-TYPE": 20, "E5-CHAIN": 5},
+    "floors": {"SCALE-FREE": 2, "ENRICH-WIDTH": 1, "ZERO-NORM": 4, "EMPTY-REDUCE": 2, "DEFASSIGN": 30, "RESULT-SHAPE": 4, "E3-PARAM": 3, "IFACE-TYPE": 20, "E5-CHAIN": 5},
 }
 ANCHORS = ["_dmrg.dmrg_matvec_python", "_dmrg.dmrg_hadamard_python", "_amen._amen_mm_python", "_tt_base.TT.fast_matvec", "_dmrg.dmrg_matvec",
            "_dmrg.dmrg_hadamard", "_amen.amen_mv", "_amen.amen_mm"]
@@ -175,4 +175,8 @@ def check(model: Model, tier: str):
     obs += rule_zero_norm(model, "_amen._amen_mm_python")
     from ..normguard import rule_enrich_width
     obs += rule_enrich_width(model, "_amen._amen_mm_python")
+    from ..normguard import rule_scale_free
+    obs += rule_scale_free(model, "_amen._amen_mm_python")
+    obs += rule_scale_free(model, "_dmrg.dmrg_matvec_python")
+    obs += rule_scale_free(model, "_dmrg.dmrg_hadamard_python")
     return obs, {"functions": ANCHORS}
